@@ -166,7 +166,7 @@ class CopyPreserve(CopySuite):
             "non-trivial = distinct case with >= 2 source entries")
 
     def gen(self, rng, tier):
-        n = {"quick": 900, "thorough": 10000, "search": 150}[tier]
+        n = {"quick": 1800, "thorough": 10000, "search": 150}[tier]
         ops = []
         for _ in range(n):
             tree = gen.disk_tree(rng, rng.choice([6, 15, 35]), 4, types=ALLT, file_sizes=(0, 1, 100, 40000), xattrs=True)
@@ -287,7 +287,7 @@ class CopyOverlay(CopySuite):
             "non-trivial = populated destination, distinct")
 
     def gen(self, rng, tier):
-        n = {"quick": 900, "thorough": 10000, "search": 150}[tier]
+        n = {"quick": 1800, "thorough": 10000, "search": 150}[tier]
         ops = []
         for _ in range(n):
             tree = gen.disk_tree(rng, rng.choice([5, 12, 25]), 3, types=("dir", "file", "symlink", "fifo", "hardlink"), file_sizes=(0, 3, 100), xattrs=False)
@@ -406,7 +406,7 @@ class CopyFilter(CopySuite):
 
     def gen(self, rng, tier):
         from . import filt
-        n = {"quick": 1200, "thorough": 15000, "search": 200}[tier]
+        n = {"quick": 2500, "thorough": 15000, "search": 200}[tier]
         ops = []
         while len(ops) < n:
             links = rng.random() < 0.3
@@ -420,7 +420,8 @@ class CopyFilter(CopySuite):
             hl = [e for e in tree if e["t"] == "hardlink"]
             if hl and rng.random() < 0.5:
                 # the filter rejects the first name of a hard-link group and selects a later one
-                a["exclude"] = [rng.choice(hl)["ln"]]
+                # (the path is used as a pattern: its metacharacters are escaped)
+                a["exclude"] = [(lambda c: hx(b"".join(b"\\" + bytes([x]) if x in b"*?[]\\" else bytes([x]) for x in bytes.fromhex(c))))(rng.choice(hl)["ln"])]
                 dst = [] if rng.random() < 0.7 else [e for e in gen.mutate_disk_tree(rng, tree, 2) if e["t"] != "hardlink"]
                 ops.append(self.mk(tree, dst, a))
                 continue
@@ -466,6 +467,8 @@ class CopyFilter(CopySuite):
                 ops.append(self.mk(tree, dst, a))
                 continue
             pl = (lambda neg_p: filt.nested_list(rng, paths)) if rng.random() < 0.25 else (lambda neg_p: filt.pattern_list(rng, paths, neg_p))
+            if rng.random() < 0.25:
+                a["replace"] = True     # always-replace: only what is SELECTED may clear something in the destination
             if r < 0.45:
                 a["include"] = [hx(p) for p in pl(0.3)]
             elif r < 0.8:
@@ -473,7 +476,7 @@ class CopyFilter(CopySuite):
             else:
                 a["include"] = [hx(p) for p in pl(0.3)]
                 a["exclude"] = [hx(p) for p in filt.pattern_list(rng, paths, 0.4)]
-            dst = [] if rng.random() < 0.7 else gen.mutate_disk_tree(rng, tree, 2)
+            dst = [] if rng.random() < (0.3 if a.get("replace") else 0.7) else gen.mutate_disk_tree(rng, tree, rng.choice([2, 4]))
             dst = [e for e in dst if e["t"] != "hardlink"]
             ops.append(self.mk(tree, dst, a))
         return ops
@@ -513,7 +516,7 @@ class CopyEscape(CopySuite):
             "times, bytes, xattrs) of everything outside the destination root unchanged, no sentinel bytes copied; non-trivial = >= 1 planted link, distinct")
 
     def gen(self, rng, tier):
-        n = {"quick": 1200, "thorough": 15000, "search": 200}[tier]
+        n = {"quick": 2500, "thorough": 15000, "search": 200}[tier]
         ops = []
         for _ in range(n):
             tree = gen.disk_tree(rng, rng.choice([5, 12]), 3, types=("dir", "file", "symlink"), xattrs=False, file_sizes=(0, 3))
@@ -535,6 +538,9 @@ class CopyEscape(CopySuite):
                         for k, e in enumerate(out):
                             if e["p"] == p:
                                 out[k] = {"p": p, "t": "symlink", "ln": hx(rng.choice(SYM_TARGETS)), "uid": 0, "gid": 0, "mt": gen.MTIMES[0], "mode": 0o777}
+                                if rng.random() < 0.3:
+                                    # an attribute ON the link (trusted.*: the only kind a symlink can carry): it belongs to the link, not to its target
+                                    out[k]["x"] = [[hx(b"trusted.onlink"), hx(b"1")]]
                     else:
                         nm = rng.choice([b"lnk", b"a", b"out", b"x"])
                         if hx(nm) not in {e["p"] for e in out}:
@@ -601,6 +607,34 @@ class CopyEscape(CopySuite):
                     a["exclude"] = [hx(dn), hx(b"!" + dn + b"/" + leaf)]
                 if rng.random() < 0.6:
                     a["replace"] = True
+            if rng.random() < 0.06:
+                # the destination has, at the path of a source NON-directory, a dangling link whose parent exists outside the destination
+                # root: materialising the entry must replace the link, not write through it
+                cands = [e for e in tree if e["t"] in ("file", "symlink") and b"/" not in bytes.fromhex(e["p"])] or \
+                        [e for e in tree if e["t"] in ("file", "symlink")]
+                if cands:
+                    e = rng.choice(cands)
+                    pb = bytes.fromhex(e["p"])
+                    depth = pb.count(b"/") + 1
+                    tgt = rng.choice([b"/outside/newfile", b"../" * depth + b"outside/newfile", b"/outside/d/new", b"/srcout/new"])
+                    have = {x["p"] for x in tree if x["t"] == "dir"}
+                    dst = [x for x in dst if not (x["p"] == e["p"] or x["p"].startswith(e["p"] + "2f"))]
+                    # the parents as the source has them
+                    par = pb.rsplit(b"/", 1)[0] if b"/" in pb else b""
+                    while par:
+                        if hx(par) not in {x["p"] for x in dst}:
+                            dst.append({"p": hx(par), "t": "dir", "uid": 0, "gid": 0, "mt": gen.MTIMES[0], "mode": 0o755})
+                        par = par.rsplit(b"/", 1)[0] if b"/" in par else b""
+                    dst = [x for x in dst if not any(x["p"].startswith(y["p"] + "2f") for y in dst if y["t"] != "dir")]
+                    dst.append({"p": e["p"], "t": "symlink", "ln": hx(tgt), "uid": 0, "gid": 0, "mt": gen.MTIMES[0], "mode": 0o777})
+                    dst.sort(key=lambda x: gen.pathkey(bytes.fromhex(x["p"])))
+                    a = {"src": hx(rng.choice([b"/", b"/" + pb])), "dst": hx(b"/")}
+                    if bytes.fromhex(a["src"]) != b"/":
+                        a["dst"] = hx(rng.choice([b"/" + pb, b"/"])) if b"/" not in pb else hx(b"/" + pb)
+                    if rng.random() < 0.5:
+                        a["cdc"] = True
+                    if rng.random() < 0.3:
+                        a["chown"] = [1000, 4242]
             ops.append(self.mk(tree, dst, a))
         return ops
 
